@@ -1,6 +1,9 @@
 """C03 — hash / MAC / KDF interfaces equal their standards under every chunking."""
+import os, sys
 from vlib import core
 from vlib.core import hexs
+sys.path.insert(0, os.path.join(core.ROOT, "tools"))
+import consts_hash  # noqa: E402
 
 ALGS = [("sm3", 64), ("sha1", 64), ("sha224", 64), ("sha256", 64), ("sha384", 128), ("sha512", 128)]
 IV_SM3 = "7380166f4914b2b9172442d7da8a0600a96f30bc163138aae38dee4db0fb0e4e"
@@ -125,6 +128,21 @@ def gen(ctx):
 
 
 def run(ctx):
+    # source-derived constant tables: regenerated on every run, Properties_C03.C03_hash_tables re-proved
+    try:
+        consts_hash.generate(core.REPO)
+        bad = consts_hash.mismatches(core.REPO)
+    except Exception as e:  # noqa
+        ctx.violation("tables:hash:parse", "cannot extract the hash constant tables from the source: %s" % e,
+                      {"kind": "correspondence", "relation": "tools/consts_hash.py", "detail": str(e)}, False)
+        return finish(ctx)
+    if bad:
+        ctx.violation("tables:hash:entry", "constant in the source differs from the value the standard defines: " +
+                      ", ".join("%s[%d]=0x%x (standard 0x%x)" % b for b in bad[:8]),
+                      {"kind": "proof", "theorem_or_file": "coq/Props/Properties_C03.v C03_hash_tables",
+                       "entries": [list(b) for b in bad[:64]]}, True)
+    else:
+        ctx.cell("tables:hash:all-entries")
     ok = ctx.check_proofs()
     model, log = core.build_model("C03")
     if model is None:
@@ -152,4 +170,5 @@ def finish(ctx):
     ]
     return ctx.finish(level="proof",
                       rule="cases = corpus/boundary families (empty input, pad boundary, block boundary, exhaustive 2-way splits of 130 bytes, installed block counters up to 2^64-1, key lengths around B, output lengths 0..100/8160/8161) + random k-way chunkings; a cell = (op, algorithm, boundary class, ok|ERR); distinct_nontrivial = number of distinct cells on which impl and model agreed",
-                      trusted=core.TRUSTED_COMMON + ["Coq files: Hash/MD.v SM3.v SHA2.v Hmac.v (models), *Proofs.v (proofs), Props/Properties_C03.v"])
+                      trusted=core.TRUSTED_COMMON + ["Coq files: Hash/MD.v SM3.v SHA2.v Hmac.v (models), *Proofs.v (proofs), Props/Properties_C03.v",
+                                                  "tools/consts_hash.py (regex copy of the SM3 / SHA-1 / SHA-2 round constants and initial values from the C source into coq/Gen/HashTables.v; C03_hash_tables re-proved each run)"])
